@@ -474,6 +474,92 @@ func ruleC06Order(p *Prog, r *Res) {
 			}
 			return true
 		})
+		// (D) the flag form: ranges over reference lists set a boolean local under the uncertainty test, `if flag { continue }`
+		// follows. A range that is itself below `if !flag` counts (when it is skipped the flag is already set).
+		flagCov := map[types.Object]map[string]bool{}
+		flagBad := map[types.Object]bool{}
+		inspectParents(f.Body(), func(x ast.Node, parents []ast.Node) bool {
+			as, ok := x.(*ast.AssignStmt)
+			if !ok || len(as.Lhs) != 1 || len(as.Rhs) != 1 {
+				return true
+			}
+			o := identObj(info, as.Lhs[0])
+			v, _ := o.(*types.Var)
+			if v == nil || v.IsField() || types.TypeString(v.Type(), nil) != "bool" {
+				return true
+			}
+			rhs := types.ExprString(as.Rhs[0])
+			if as.Tok == token.DEFINE && rhs == "false" {
+				return true
+			}
+			if rhs != "true" {
+				flagBad[o] = true
+				return true
+			}
+			// innermost reference range around the assignment, with an uncertainty test between it and the assignment
+			for i := len(parents) - 1; i >= 0; i-- {
+				rs, ok := parents[i].(*ast.RangeStmt)
+				if !ok {
+					continue
+				}
+				cov := refKind(rs.X)
+				if cov == nil {
+					break
+				}
+				tested := false
+				for _, par := range parents[i+1:] {
+					if ifs, ok := par.(*ast.IfStmt); ok {
+						cond := types.ExprString(ifs.Cond)
+						if ifs.Init != nil {
+							cond += " " + exprString(p.Fset, ifs.Init)
+						}
+						if strings.Contains(cond, "Uncertain") || strings.Contains(cond, "uncertainTags") || strings.Contains(cond, "ok") {
+							tested = true
+						}
+					}
+				}
+				// what encloses the range up to the loop iteration: only `if !flag`
+				for j := i - 1; j >= 0 && tested; j-- {
+					switch par := parents[j].(type) {
+					case *ast.BlockStmt:
+					case *ast.IfStmt:
+						u, isNot := ast.Unparen(par.Cond).(*ast.UnaryExpr)
+						if !isNot || u.Op != token.NOT || identObj(info, u.X) != o || !within(rs, par.Body) {
+							tested = false
+						}
+					case *ast.RangeStmt, *ast.ForStmt:
+						j = -1
+					default:
+						tested = false
+					}
+				}
+				if tested {
+					if flagCov[o] == nil {
+						flagCov[o] = map[string]bool{}
+					}
+					for k := range cov {
+						flagCov[o][k] = true
+					}
+				}
+				break
+			}
+			return true
+		})
+		ast.Inspect(f.Body(), func(x ast.Node) bool {
+			ifs, ok := x.(*ast.IfStmt)
+			if !ok || len(ifs.Body.List) == 0 {
+				return true
+			}
+			if b, ok := ifs.Body.List[len(ifs.Body.List)-1].(*ast.BranchStmt); !ok || b.Tok != token.CONTINUE {
+				return true
+			}
+			for _, d := range disjuncts(ifs.Cond) {
+				if o := identObj(info, d); o != nil && flagCov[o] != nil && !flagBad[o] {
+					guards = append(guards, guard{ifs.Cond, flagCov[o]})
+				}
+			}
+			return true
+		})
 		evals := fl.Find(func(nd ast.Node) bool { return isEval(f, nd) })
 		for _, e := range evals {
 			n++
